@@ -275,6 +275,27 @@ def build_histories(seed, pool, tier):
         for o in orders:
             hist.append({"proc": len(hist), "hashseed": hs.randrange(1, 2 ** 32 - 1),
                          "ops": o[:150]})
+    # relatives: the same program text under different option sets (and the same options on
+    # different texts) back to back, in both orders - where a memo keyed by the text alone,
+    # or by the options alone, would answer from the wrong entry
+    by_text, by_opts = {}, {}
+    for i, op in enumerate(pool):
+        if op["t"] == "convert":
+            by_text.setdefault(hashlib.sha256(op["text"].encode()).hexdigest(), []).append(i)
+            by_opts.setdefault(json.dumps(op["opts"], sort_keys=True), []).append(i)
+    for groups in (by_text, by_opts):
+        seq = []
+        for k in sorted(groups):
+            g = groups[k]
+            if len(g) >= 2:
+                g = list(g)
+                r.shuffle(g)
+                seq.extend(g[:6])
+        for a in range(0, len(seq), 60):
+            part = seq[a:a + 60]
+            if len(part) >= 2:
+                for o in (part, part[::-1]):
+                    hist.append({"proc": len(hist), "hashseed": hs.randrange(1, 2 ** 32 - 1), "ops": o})
     return hist
 
 
@@ -288,15 +309,38 @@ def plan_digest(pool, hist):
 
 
 # ============================================================================= processes
-def run_process(hashseed, ops, timeout=900):
+CWDS = ("/", "/tmp", "/usr", "/var")
+TZS = ("UTC", "PST8PDT", "JST-9", "CET-1CEST", "NZST-12NZDT")
+
+
+def process_environment(hashseed):
+    """Environment skew of one tool process, a pure function of its hash seed (so that a
+    replay file needs nothing more): clock epoch and tick, time zone, cwd, identity."""
+    import random
+    r = random.Random(derive("penv", hashseed))
+    return {
+        "epoch": r.choice((0.0, 86399.0, 946684799.0, 1700000000.0, 4102444800.0)) + r.randrange(10 ** 6),
+        "tick": r.choice((1e-6, 0.001, 0.75, 61.0, 86400.0)),
+        "cwd": r.choice(CWDS),
+        "environ": {"TZ": r.choice(TZS), "USER": r.choice(("root", "alice", "bob")),
+                    "LOGNAME": r.choice(("root", "alice")), "HOME": r.choice(("/root", "/home/alice", "/")),
+                    "HOSTNAME": r.choice(("coco", "build-7", "localhost")),
+                    "COLUMNS": str(r.choice((20, 80, 200))), "LINES": str(r.choice((5, 24, 100))),
+                    "LANG": r.choice(("C", "C.UTF-8", "en_US.UTF-8", "POSIX"))},
+    }
+
+
+def run_process(hashseed, ops, timeout=900, penv=None):
     """Start one tool process (fresh interpreter, given hash seed), feed it the history."""
+    penv = penv or process_environment(hashseed)
     env = dict(os.environ)
     env["PYTHONHASHSEED"] = str(hashseed)
     env["PYTHONDONTWRITEBYTECODE"] = "1"
     core = [{k: v for k, v in op.items() if k not in ("label", "oclass", "fault", "key")}
             for op in ops]
     try:
-        p = subprocess.run([PYTHON, WORKER], input=json.dumps({"ops": core}), env=env,
+        p = subprocess.run([PYTHON, WORKER],
+                           input=json.dumps({"ops": core, "penv": penv}), env=env,
                            capture_output=True, text=True, timeout=timeout, cwd=VERIF_DIR)
     except subprocess.TimeoutExpired:
         raise HarnessFailure("tool process exceeded the wall-clock backstop")
@@ -320,8 +364,26 @@ def run_all(pool, hist):
 
 
 # ============================================================================= minimisation
-def _alone(op, hashseed):
-    return run_process(hashseed, [op])[0][0]
+def _alone(op, hashseed, penv=None):
+    return run_process(hashseed, [op], penv=penv)[0][0]
+
+
+def _blame_environment(op, seed, pa, pb, ra):
+    """Which component of the process environment flips the answer from ra?"""
+    for comp in ("clock", "TZ", "cwd", "identity"):
+        mix = json.loads(json.dumps(pa))
+        if comp == "clock":
+            mix["epoch"], mix["tick"] = pb["epoch"], pb["tick"]
+        elif comp == "TZ":
+            mix["environ"]["TZ"] = pb["environ"]["TZ"]
+        elif comp == "cwd":
+            mix["cwd"] = pb["cwd"]
+        else:
+            tz = mix["environ"]["TZ"]
+            mix["environ"] = dict(pb["environ"], TZ=tz)
+        if _alone(op, seed, mix) != ra:
+            return comp, mix
+    return "combination", pb
 
 
 def _shrink_text(op, pred, budget=40):
@@ -369,11 +431,22 @@ def minimise(pool, hist, results, key, obs):
     sa, sb = hist[pa]["hashseed"], hist[pb]["hashseed"]
     alone_a, alone_b = _alone(op, sa), _alone(op, sb)
     if alone_a != alone_b:
+        pa_, pb_ = process_environment(sa), process_environment(sb)
+        cross = _alone(op, sa, pb_)          # A's hash seed in B's environment
+        if cross == alone_a:
+            kind, ea, eb = "hashseed", pa_, pa_      # the environment is not needed
+        elif cross == alone_b:
+            comp, mix = _blame_environment(op, sa, pa_, pb_, alone_a)
+            kind, ea, eb, sb = "environment:" + comp, pa_, mix, sa
+        else:
+            kind, ea, eb = "process", pa_, pb_
+
         def pred(o):
-            return _alone(o, sa) != _alone(o, sb)
+            return _alone(o, sa, ea) != _alone(o, sb, eb)
         small = _shrink_text(op, pred)
-        return {"kind": "hashseed", "op": _core(small), "label": op["label"], "hashseed_a": sa,
-                "hashseed_b": sb, "expect": [_alone(small, sa), _alone(small, sb)]}
+        return {"kind": kind, "op": _core(small), "label": op["label"], "hashseed_a": sa,
+                "hashseed_b": sb, "penv_a": ea, "penv_b": eb,
+                "expect": [_alone(small, sa, ea), _alone(small, sb, eb)]}
     # same answer alone under both seeds: some history changes it
     for proc, pos, resp in ((pa, posa, ra), (pb, posb, rb)):
         s = hist[proc]["hashseed"]
@@ -414,8 +487,9 @@ def _core(op):
 def check_replay_doc(doc):
     """-> (reproduced?, observed responses)"""
     op = doc["op"]
-    if doc["kind"] == "hashseed":
-        a, b = _alone(op, doc["hashseed_a"]), _alone(op, doc["hashseed_b"])
+    if doc["kind"] == "hashseed" or doc["kind"] == "process" or doc["kind"].startswith("environment"):
+        a = _alone(op, doc["hashseed_a"], doc.get("penv_a"))
+        b = _alone(op, doc["hashseed_b"], doc.get("penv_b"))
         return a != b, [a, b]
     if doc["kind"] == "history":
         alone = _alone(op, doc["hashseed"])
@@ -467,7 +541,14 @@ def main(tier):
     execs = sum(len(h["ops"]) for h in hist)
     seeds = sorted(set(h["hashseed"] for h in hist))
     pairs = set()
-    fault_fired = {"process_restart_new_hashseed": len(hist), "same_op_repeated_in_process": 0}
+    fault_fired = {"process_restart_new_hashseed": len(hist), "same_op_repeated_in_process": 0,
+                   "clock_epoch_and_rate_skew": len(set((process_environment(h["hashseed"])["epoch"],
+                                                          process_environment(h["hashseed"])["tick"])
+                                                         for h in hist)),
+                   "timezone_cwd_identity_skew": len(set(json.dumps(process_environment(h["hashseed"])["environ"],
+                                                                      sort_keys=True) +
+                                                           process_environment(h["hashseed"])["cwd"]
+                                                           for h in hist))}
     for h in hist:
         seen_here = set()
         prev = None
@@ -518,7 +599,10 @@ def main(tier):
             "real": ["the whole coco package (compiler, parser, visitors, procbank, decoders, "
                      "decb_to_b09.start)", "parsimonious", "pydantic / pydantic_yaml", "PIL", "pypng",
                      "CPython str hashing with the drawn PYTHONHASHSEED"],
-            "stub": ["file system and std streams of decoder and command-line ops (SimFS)",
+            "stub": ["wall clock, monotonic clock and datetime of every tool process (simulated: own "
+                     "epoch and tick per process)", "TZ / cwd / USER / HOME / HOSTNAME / LANG / COLUMNS of "
+                     "every tool process (scheduler-chosen)",
+                     "file system and std streams of decoder and command-line ops (SimFS)",
                      "process boundary: a fresh interpreter per simulated tool process"],
         },
         "plan_digest": pd,
